@@ -1,4 +1,5 @@
 from checks import concfam, osfam
+import vlib
 GUARDS = {"BlockConservation.dup", "BlockConservation.lost", "ListsStayInPage", "QuiescentClean", "NoBlowUp", "WalkCount", "Invariant.Inv"}
 def run(tier, seed):
     jobs = [
@@ -26,7 +27,12 @@ def run(tier, seed):
         oruns.append({"args": ["--workload", "mt", "--rounds", "3" if q else "6"], "env": dict(env), "tag": tag.replace("relay", "mt"), "build": "rel" if q else "dbg"})
     V, ocov = osfam.run_os("C08", tier, seed, oruns, builds=["rel", "dbg"], own_guards={"AllReleased", "DirtyAllReleased", "QuiesceNoLive", "NoCreepMapped", "Invariant.Inv"},
                            crash_decisive=True, group=2, finish=False, outname="C08os")
+    # the page queues of a heap as a model (MiHeap): every reachable heap satisfies MiHeapValid, in particular FullPagesAreFull
+    r = vlib.tlc_mc("MiHeap", "MiHeap_mc.cfg", workers=4, timeout=900, coverage=False)
+    if r["violation"]:
+        raise vlib.InfraError("MiHeap: the model of the heap's page queues violates MiHeapValid (specification error or the code changed):\n" + r["out"][-3000:])
+    ocov["heap_queue_model"] = {"module": "MiHeap", "config": "MiHeap_mc.cfg", "distinct_states": r["distinct"]}
     return concfam.run_conc("C08", tier, seed, jobs, GUARDS, step_guards=concfam.STEP_GUARDS, V=V,
-                            extra_cov={"forced_abandonment": {k: ocov[k] for k in ("traces_validated_against_impl", "trace_events_validated", "os_events", "runs_sample")}}, mc=("MiPage", ("MiPage_mc.cfg", "MiPage_mc_thorough.cfg")), guided_progs=("page",),
+                            extra_cov={"forced_abandonment": {k: ocov[k] for k in ("traces_validated_against_impl", "trace_events_validated", "os_events", "runs_sample")}, "heap_queue_model": ocov["heap_queue_model"]}, mc=("MiPage", ("MiPage_mc.cfg", "MiPage_mc_thorough.cfg")), guided_progs=("page",),
                             assumptions=["QuiescentClean is demanded after a forced mi_heap_collect of the owner's (user) heap once every block was freed by whichever thread",
                                          "NoBlowUp compares the maximum number of page areas of the producer heap in the second half of 2400 rounds with the first half (+2 + an eighth of it), with the default and a maximal MIMALLOC_GENERIC_COLLECT"])
